@@ -748,6 +748,202 @@ def export_bookkeeping(repo, w):
     if sorted(calls) != sorted(want): raise Refusal('json %s: calls %r differ from the modelled composition' % (where(f), calls))
 
 
+SEPARATOR_TMPL = """
+if P is None: Psep = %(sep_default)r
+else:
+    if P > 0.: Psep = P
+    elif P < 0: Psep = [%(sep_high)r, %(sep_default)r]
+    else: Psep = %(sep_default)r
+return {'pressure': Psep}
+"""
+
+INTERP_TMPL = """
+if self.parameter['option'][12] == 0:
+    interp_type, averaging_type = "linear", "endpoint"
+elif self.parameter['option'][12] == 1:
+    interp_type, averaging_type = "step", "endpoint"
+else:
+    interp_type, averaging_type = "linear", "integrate"
+"""
+
+GENERATOR_JSON_TMPL = """
+mass_component = %(mass_component)s
+
+def specified_injection_generator_json(g, gen):
+    if tracer and gen.type in %(tracer_types)r:
+        g['tracer'] = gen.gx
+    else:
+        g['rate'] = gen.gx
+        if gen.type == 'MASD': injection = False
+        else:
+            injection = gen.gx > 0. or \\
+                        (gen.time and any([r > 0. for r in gen.rate]))
+        if injection:
+            g['component'] = mass_component[gen.type]
+            if gen.type != 'HEAT': g['enthalpy'] = gen.ex
+        else:
+            if gen.type == 'MASS':
+                g['separator'] = separator(gen.hg)
+            elif gen.type == 'MASD':
+                g['deliverability'] = {'productivity': gen.ex,
+                                       'pressure': gen.fg,
+                                       'threshold': gen.hg}
+                g['limiter'] = {'total': abs(gen.gx)}
+                g['separator'] = separator(gen.fg)
+                g['direction'] = 'production'
+    return g
+
+def delv_generator_json(g, gen):
+    ltab = 0 if gen.ltab is None else gen.ltab
+    if ltab > 1:
+        raise Exception('DELV generator with multiple layers not supported.')
+    else:
+        g['deliverability'] = {'productivity': gen.gx,
+                               'pressure': gen.ex}
+        if gen.gx >= 0.:
+            g['direction'] = 'production'
+            g['separator'] = separator(gen.fg)
+        else:
+            g['direction'] = 'injection'
+            g['enthalpy'] = gen.fg
+    return g
+
+def geothermal_deliverability_generator_json(g, gen):
+    g['deliverability'] = {'productivity': gen.gx,
+                           'pressure': gen.ex}
+    g['separator'] = separator(gen.fg)
+    if gen.hg is not None:
+        if gen.hg > 0.:
+            g['limiter'] = {limit_type[gen.type]: gen.hg}
+        elif gen.hg < 0. and gen.type in %(rate_from_hg)r:
+            g['rate'] = gen.hg
+            del g['deliverability']['productivity']
+    if gen.type == 'DELS': g['production_component'] = 2
+    g['direction'] = 'production'
+    return g
+
+def recharge_generator_json(g, gen):
+    g['enthalpy'] = gen.ex
+    if (gen.hg is not None) and gen.hg != 0.:
+        rech = {}
+        g['direction'] = "both"
+        if gen.fg is not None:
+            if gen.fg < 0.: g['direction'] = "out"
+            elif gen.fg > 0.: g['direction'] = "in"
+        if gen.hg > 0.: rech['pressure'] = gen.hg
+        else: rech['pressure'] = 'initial'
+        rech['coefficient'] = gen.gx
+        g['recharge'] = rech
+    else:
+        g['rate'] = gen.gx
+    return g
+
+def injectivity_generator_json(g, gen):
+    if gen.type == 'XINJ': g['enthalpy'] = gen.ex
+    g['direction'] = 'injection'
+    g['injectivity'] = {'pressure': gen.hg,
+                        'coefficient': abs(gen.fg)}
+    if gen.gx > 0:
+        g['limiter'] = {'total': gen.gx}
+    return g
+
+def table_generator_json(g, gen):
+    g['interpolation'] = interp_type
+    g['averaging'] = averaging_type
+    data_table = [list(r) for r in zip(gen.time, gen.rate)]
+    if gen.type in %(table_types)r:
+        ltab = 0 if gen.ltab is None else gen.ltab
+        if ltab > 0:
+            g['deliverability']['productivity'] = {'time': data_table}
+        else:
+            g['deliverability']['pressure'] = {'enthalpy': data_table}
+    elif tracer and gen.type in %(tracer_types)r:
+        g['tracer'] = data_table
+    else:
+        if gen.rate: g['rate'] = data_table
+        if gen.enthalpy:
+            g['enthalpy'] = [list(r) for r in zip(gen.time, gen.enthalpy)]
+    return g
+
+if gen.block in geo.block_name_index:
+    cell_index = geo.block_name_index[gen.block] - geo.num_atmosphere_blocks
+    if cell_index < 0: cell_index = None
+else:
+    cell_index = None
+g = {'name': unique_name(gen), 'cell': cell_index}
+
+if gen.type in mass_component:
+    g = specified_injection_generator_json(g, gen)
+elif gen.type == 'DELV':
+    g = delv_generator_json(g, gen)
+elif gen.type in %(geothermal_types)r:
+    g = geothermal_deliverability_generator_json(g, gen)
+elif gen.type == 'RECH':
+    g = recharge_generator_json(g, gen)
+elif gen.type in %(injectivity_types)r:
+    g = injectivity_generator_json(g, gen)
+
+if gen.time:
+    g = table_generator_json(g, gen)
+return g
+"""
+
+
+def strip_docstrings(nodes):
+    """drops the docstrings of (nested) function definitions, in place"""
+    for n in nodes:
+        for f in ast.walk(n):
+            if isinstance(f, ast.FunctionDef): f.body = nodoc(f)
+    return nodes
+
+
+def source_values(w, c):
+    """generators_json: the value parts of a source (coq/C20/SourceJson.v) -- tables out of the AST, statement lists compared"""
+    import textwrap
+    f = w.method('generators_json')
+    v = {}
+    inner = [n for n in ast.walk(f) if isinstance(n, ast.FunctionDef) and n.name == 'generator_json'][0]
+    sep = [n for n in f.body if isinstance(n, ast.FunctionDef) and n.name == 'separator']
+    if len(sep) != 1: raise Refusal('generators_json: nested separator() not found')
+    nums = [x.value for x in ast.walk(sep[0]) if isinstance(x, ast.Constant) and isinstance(x.value, float) and x.value != 0.0]
+    if len(nums) != 4 or len(set(nums)) != 2: raise Refusal('separator %s: expected two distinct pressure constants' % where(sep[0]))
+    lst = [x for x in ast.walk(sep[0]) if isinstance(x, ast.List)]
+    if len(lst) != 1 or len(lst[0].elts) != 2: raise Refusal('separator %s: expected one two-pressure list' % where(sep[0]))
+    v['sep_high'], v['sep_default'] = lst[0].elts[0].value, lst[0].elts[1].value
+    if not src_eq(nodoc(sep[0]), textwrap.dedent(SEPARATOR_TMPL % v)): raise Refusal('separator %s: statement list differs from the modelled one' % where(sep[0]))
+    chain = [n for n in f.body if isinstance(n, ast.If) and isinstance(n.test, ast.Compare) and option_index(n.test.left) == 12]
+    if len(chain) != 1 or not src_eq(chain, textwrap.dedent(INTERP_TMPL)): raise Refusal('generators_json: the MOP(12) interpolation choice differs from the modelled one')
+    d = [n for n in inner.body if isinstance(n, ast.Assign) and isinstance(n.targets[0], ast.Name) and n.targets[0].id == 'mass_component']
+    if len(d) != 1 or not isinstance(d[0].value, ast.Dict): raise Refusal('generator_json: mass_component dict not found')
+    mc = []
+    for k, val in zip(d[0].value.keys, d[0].value.values):
+        if not (isinstance(k, ast.Constant) and isinstance(k.value, str)): raise Refusal('mass_component key')
+        if isinstance(val, ast.Constant) and isinstance(val.value, int) and not isinstance(val.value, bool): mc.append((k.value, val.value))
+        elif isinstance(val, ast.Name) and val.id == 'num_eqns': mc.append((k.value, None))
+        else: raise Refusal('mass_component[%r] %s: neither an integer nor num_eqns' % (k.value, where(val)))
+    v['mass_component_list'] = mc
+    v['mass_component'] = '{' + ', '.join('%r: %s' % (k, 'num_eqns' if z is None else z) for k, z in mc) + '}'
+    v['limit_type'] = w.local_literal(f, 'limit_type')
+    if not (isinstance(v['limit_type'], dict) and all(isinstance(a, str) and isinstance(b, str) for a, b in v['limit_type'].items())): raise Refusal('limit_type is not a str -> str dict')
+    def fn(name): return [n for n in inner.body if isinstance(n, ast.FunctionDef) and n.name == name][0]
+    def type_lists(node): return [w.ev(n.comparators[0]) for n in ast.walk(node) if isinstance(n, ast.Compare) and isinstance(n.ops[0], ast.In)
+                                  and isinstance(n.comparators[0], ast.List) and dump(n.left) == dump(ast.parse('gen.type').body[0].value)]
+    try:
+        v['tracer_types'] = type_lists(fn('specified_injection_generator_json'))[0]
+        v['rate_from_hg'] = type_lists(fn('geothermal_deliverability_generator_json'))[0]
+        tl = type_lists(fn('table_generator_json'))
+        v['table_types'] = tl[0]
+        disp = dict(c['gj']['dispatch'])
+        v['geothermal_types'] = disp['geothermal_deliverability_generator_json']
+        v['injectivity_types'] = disp['injectivity_generator_json']
+    except (IndexError, KeyError):
+        raise Refusal('generator_json %s: type lists of the nested functions not found' % where(inner))
+    body = strip_docstrings(nodoc(inner))
+    if not src_eq(body, textwrap.dedent(GENERATOR_JSON_TMPL % v)):
+        raise Refusal('generator_json %s: the statement lists of the nested functions differ from the modelled ones (coq/C20/SourceJson.v)' % where(inner))
+    return v
+
+
 def hand_modelled(w, c):
     import textwrap
     holes = dict(c['gen'])
@@ -827,6 +1023,7 @@ def collect(repo):
     c['gj'] = generator_tables(w)
     hand_modelled(w, c)
     export_bookkeeping(repo, w)
+    c['sv'] = source_values(w, c)
     f = w.method('convert_mulkom_heat_conductivity')
     if not src_eq(nodoc(f), 'for rt in self.grid.rocktypelist:\n rt.conductivity *= (1. - rt.porosity)'):
         raise Refusal('convert_mulkom_heat_conductivity: body differs from `conductivity *= (1. - porosity)` over rocktypelist')
@@ -904,6 +1101,18 @@ def emit(c):
     d('mass_component_types', 'list string', slist(j['mass_component_types']))
     d('generator_dispatch', 'list (string * list string)', '[' + ';\n  '.join('(%s, %s)' % (cs(fn), slist(ts)) for fn, ts in j['dispatch']) + ']')
     d('group_type', 'string', cs(j['group_type']))
+    v = c['sv']
+    q = lambda x: '(%d, %d)' % float(x).as_integer_ratio()
+    d('sep_default', 'Z * Z', q(v['sep_default']))
+    d('sep_high', 'Z * Z', q(v['sep_high']))
+    d('mass_component', 'list (string * option Z)', '[' + '; '.join('(%s, %s)' % (cs(k), 'None' if n is None else 'Some %s' % z(n)) for k, n in v['mass_component_list']) + ']')
+    d('limit_type', 'list (string * string)', '[' + '; '.join('(%s, %s)' % (cs(a), cs(b)) for a, b in v['limit_type'].items()) + ']')
+    d('tracer_source_types', 'list string', slist(v['tracer_types']))
+    d('rate_from_hg_types', 'list string', slist(v['rate_from_hg']))
+    d('table_deliverability_types', 'list string', slist(v['table_types']))
+    for name, val in (('masd_type', 'MASD'), ('heat_type', 'HEAT'), ('mass_type', 'MASS'), ('dels_type', 'DELS'), ('xinj_type', 'XINJ'),
+                      ('interp_linear', 'linear'), ('interp_step', 'step'), ('avg_endpoint', 'endpoint'), ('avg_integrate', 'integrate')):
+        d(name, 'string', cs(val))          # literals of the compared statement lists
     d('eos_num_equations', 'list (string * Z)', '[' + '; '.join('(%s, %s)' % (cs(k), z(v)) for k, v in j['eos_num_equations'].items()) + ']')
     return ''.join(o)
 
